@@ -5,11 +5,14 @@ R2  sizes derived from user floats are range-checked before allocation
 R3  conditionally allocated members are not dereferenced unguarded
 R4  failed objects are rolled back
 R5  exceptions are contained (shared with C11-R7)
+R6  a rejected configuration leaves nothing behind for the next one
+R7  a vector whose length is chosen by the user is validated (or sized) before it is indexed by a foreign bound
 """
 from . import expr as X
 from . import cond as C
 from . import callgraph
 from .common import load_table
+from .facts import AnalysisBroken
 
 ERROR_FUNCS = ("colvarmodule::error", "colvarmodule::error_static", "colvarmodule::fatal_error")
 
@@ -839,8 +842,98 @@ def r6(F, rep):
         raise AnalysisBroken("parse_config: no consumed-and-cleared scratch member found (extra_conf expected)")
 
 
+# ------------------------------------------------------------------------------------------------ R7
+def r7(F, rep):
+    from .sizeflow import SizeFlow, E as SE, Q as SQ, O as SO, norm, sizes
+    from .rules_c12 import upper_bound
+    rep.rule("C10-R7", "user-sized vectors: where a function fills a std::vector from a keyword (get_keyval: an empty vector takes "
+                       "as many values as the user wrote, a non-empty one keeps its length) and then subscripts it with an index "
+                       "bounded by something other than its own size, a forward dataflow over the function's CFG on the abstract "
+                       "length {empty, ==bound, other} (transfer: fill, resize/assign(bound), clear, escapes; edge filters: "
+                       "comparisons of size() with the bound or zero) proves the length equals the bound at the subscript")
+    exempt = load_table("c10_exempt.json").get("R7", {})
+    seen = set()
+    n = 0
+    for f in F.funcs.values():
+        if "/src/" not in f.file or f.body is None or f.m in seen or f.is_lambda:
+            continue
+        tg = {}
+        for c in X.calls(f):
+            if (c.get("cq") or "") != "colvarparse::get_keyval":
+                continue
+            a = X.call_args(c)
+            if len(a) < 3 or "vector<" not in f.typestr(X.strip(a[2]).get("t")):
+                continue
+            tg.setdefault(X.re_strip(X.key(a[2], f)), []).append(c)
+        if not tg:
+            continue
+        seen.add(f.m)
+        if not f.cfg.ok:
+            raise AnalysisBroken("C10-R7: no CFG for %s" % f.q)
+        flows = {}
+        for u in f.walk():
+            if not (u["k"] == "CXXOperatorCallExpr" and u.get("op") == "[]"):
+                continue
+            a = X.call_args(u)
+            vk = X.re_strip(X.key(a[0], f))
+            if vk not in tg or not any(f.cfg.can_reach(c, u) for c in tg[vk]):
+                continue
+            lit = C._lit(X.strip(a[1]))
+            ub = upper_bound(F, f, a[1]) if lit is None else None
+            if lit is None and ub is None:
+                continue            # index with no recognisable bound: not an instance of this rule
+            if ub is not None and ub == vk + ".size()":
+                continue
+            n += 1
+            what = ub if ub is not None else str(lit)
+            key = "%s|%s[<%s]" % (f.q, vk, what)
+            if f.q in exempt:
+                rep.add("C10-R7", key, f.loc(u), "%s: exempt -- %s" % (f.q, exempt[f.q]), True, func=f.q)
+                continue
+            # entry state: a member is empty (fresh object) or has the length validated by an earlier run of the same
+            # function; a local starts as its declaration says
+            root = X.strip(a[0])
+            if root["k"] == "DeclRefExpr" and root.get("st") == "local":
+                entry = {SE}
+                for d in f.walk():
+                    if d["k"] == "VarDecl" and d.get("d") == root.get("d") and X.kids(d):
+                        init = X.strip(X.kids(d)[0])
+                        ia = X.call_args(init) if init["k"] == "CXXConstructExpr" else []
+                        if ia and ub is not None and norm(f, ia[0]) == ub:
+                            entry = {SQ}
+                        elif ia:
+                            entry = {SE, SQ, SO}
+            else:
+                entry = {SE, SQ}
+            cands = [None]
+            if lit is not None:
+                # literal index c: any comparison of size() with a literal n > c establishes the needed length
+                cands = sorted({C._lit(X.strip(k)) for m in f.walk() if m["k"] == "BinaryOperator" for k in X.kids(m)
+                                if isinstance(C._lit(X.strip(k)), int) and C._lit(X.strip(k)) > lit}) or [lit + 1]
+            best = None
+            for cand in cands:
+                fk = (vk, ub, cand)
+                if fk not in flows:
+                    flows[fk] = SizeFlow(F, f, vk, ub, entry, literal=cand)
+                    flows[fk].learn_flags()
+                st = sizes(flows[fk].state_at(u))
+                if best is None or len(st - {SQ}) < len(best[0] - {SQ}):
+                    best = (st, flows[fk])
+            st, fl = best
+            bad = sorted(st - {SQ})
+            ok = not bad
+            say = {SE: "may still be empty", SO: "may have a user-chosen length different from the bound"}
+            rep.add("C10-R7", key, f.loc(u), "%s: `%s[...]` indexed below %s after being filled from a keyword; at this point its length %s" % (
+                f.q, vk, what, "equals the bound on every path" if ok else " / ".join(say[b] for b in bad)), ok,
+                detail="; ".join(fl.notes[:3]) or "no validation of the length against the bound lies on every path from the keyword to this subscript", func=f.q)
+    if n < 30:
+        raise AnalysisBroken("C10-R7: only %d subscripts of keyword-filled vectors with a foreign bound found" % n)
+    rep.count("keyword_vector_subscripts", n)
+
+
 def run(F, rep, tier):
     r6(F, rep)
+    r7(F, rep)
     R1(F, rep).run()
     R2(F, rep).run()
     R5(F, rep).run()
